@@ -17,6 +17,10 @@ def directed(rng):
     # restart with live, matched and replaced bets; foreign and unknown-strategy bets; duplicated snapshots
     cases.append([["book", "OPEN"], P(), P(400, sel=202), ["deliver", 0, ok], ["deliver", 0, ok], ["req", "replace", 0, 300, True], ["deliver", 0, ok], ["xfill", 0, 1],
                   ["xforeign", 0, 901, 101], ["xforeign", 0, 903, 303], ["xforeign", "unknown-strategy", 902, 202], ["stream", "full"], ["restart"], ["book", "OPEN"], ["stream", "full"], ["stream", "full"], ["stream", "stale"], ["stream", "full"]])
+    # restart where the order-stream image is processed before the first market book: the market is created by the adoption, the book arrives later
+    cases.append([["book", "OPEN"], P(), P(400, sel=202), ["deliver", 0, ok], ["deliver", 0, ok], ["xfill", 0, 1], ["stream", "full"], ["restart"], ["stream", "full"], ["book", "OPEN"], P(300, sel=303), ["deliver", 0, ok],
+                  ["stream", "full"], ["book", "OPEN"], ["stream", "full"]])
+    cases.append([["book", "OPEN"], P(), ["deliver", 0, ok], ["stream", "full"], ["restart"], ["stream", "full"], ["stream", "full"], ["book", "SUSPENDED"], ["book", "OPEN"], ["req", "cancel", 0, None, True], ["deliver", 0, ok], ["stream", "full"]])
     # async placement: bet id from the stream before / after the response; fill while the response is on its way
     cases.append([["book", "OPEN"], P(sel=303), P(400, sel=303), ["deliver", 0, ok], ["deliver", 0, ok], ["xfill", 0, 1], ["stream", "full"], ["restart"], ["book", "OPEN"], ["stream", "full"], ["xfill", 0, 2], ["xlapse", 0], ["stream", "full"]])
     cases.append([["book", "OPEN"], P(asyn=True), ["call", 0, ok], ["stream", "full"], ["xfill", 0, 2], ["respond", 0], ["stream", "full"]])
